@@ -136,7 +136,7 @@ def run_one(job):
             pass
         env["SEED_VERIF_TRACE"] = tpath
     t0 = time.time()
-    timeout = job.get("timeout", 20.0)
+    timeout = job.get("timeout", 12.0)
     try:
         arg = name
         if job.get("argpath") == "abs":
@@ -184,12 +184,20 @@ _POOL = None
 def pool():
     global _POOL
     if _POOL is None:
+        try:
+            os.unlink(os.path.join(WORK, "hangs-%d" % os.getpid()))
+        except OSError:
+            pass
         _POOL = mp.Pool(NPROC, initializer=_pool_init)
     return _POOL
 
 
 def close_pool():
     global _POOL
+    try:
+        os.unlink(os.path.join(WORK, "hangs-%d" % os.getpid()))
+    except OSError:
+        pass
     if _POOL is not None:
         _POOL.close()
         _POOL.join()
@@ -225,7 +233,7 @@ def run_dump(mode, texts, binary=None):
     return out
 
 
-def _dump_shard(arg):
+def _dump_shard(arg, _depth=0):
     mode, texts, binary = arg
     d = _worker_dir()
     ip, op = os.path.join(d, "dump.in"), os.path.join(d, "dump.out")
@@ -242,7 +250,14 @@ def _dump_shard(arg):
     if lines and lines[-1] == "":
         lines.pop()
     if len(lines) != len(texts):
-        raise Inconclusive("dump hook returned %d records for %d inputs" % (len(lines), len(texts)))
+        if len(texts) == 1:
+            # a record that spans several lines (e.g. an identifier token containing a newline): keep it as one record
+            return ["\\n".join(lines)]
+        if _depth > 12:
+            raise Inconclusive("dump hook returned %d records for %d inputs" % (len(lines), len(texts)))
+        # some record spans several lines: split the shard to find it
+        mid = len(texts) // 2
+        return (_dump_shard((mode, texts[:mid], binary), _depth + 1) + _dump_shard((mode, texts[mid:], binary), _depth + 1))
     return lines
 
 
